@@ -20,9 +20,11 @@ Vec(o, z, l, x, y) == [m |-> "SliceIndex", op |-> o, zst |-> z, len |-> l, a |->
 Vectors ==
     {Vec(o, 0, l, x, 0) : o \in Ops1, l \in RepLens, x \in Rep}
       \cup {Vec(o, 0, l, x, y) : o \in Ops2, l \in RepLens, x \in Rep, y \in Rep}
-      \cup {Vec(o, 0, l, x, 0) : o \in OpsN, l \in 0..9, x \in 1..4}
+      \cup {Vec(o, 0, l, x, 0) : o \in OpsN, l \in 0..25, x \in Ns}
+      \cup {Vec(o, z, l, 0, 0) : o \in Ops0, z \in {0, 1}, l \in 0..6}
+      \cup {Vec(o, 1, l, 0, 0) : o \in Ops0, l \in RepZst}
       \cup {Vec(o, 1, l, x, 0) : o \in Ops1, l \in RepZst, x \in Rep}
       \cup {Vec(o, 1, l, x, y) : o \in Ops2, l \in RepZst, x \in Rep, y \in Rep}
-      \cup {Vec(o, 1, l, x, 0) : o \in OpsN, l \in 0..5, x \in 1..4}
+      \cup {Vec(o, 1, l, x, 0) : o \in OpsN, l \in 0..13, x \in Ns}
 Emit == ndJsonSerialize(IOEnv.OUT, SetToSeq(Vectors))
 =============================================================================
